@@ -384,3 +384,26 @@ pub fn claxon_decode(bytes: &[u8]) -> Result<ClaxonOut, String> {
         Err(p) => Err(format!("claxon panicked: {}", p.describe())),
     }
 }
+
+/// A write the sink refuses at its first operation, made on the calling thread: of a frame header (every
+/// `which`), and of a whole frame (odd `which`). What a refused write leaves on the thread must not
+/// reach the next serialisation.
+pub fn refused_writes(which: u64) {
+    use crate::bitmodel::{FailingSink, Flavour};
+    use flacenc::component::{ChannelAssignment, FrameHeader, FrameOffset};
+    let _ = panicx::catch(|| {
+        if let Ok(h) = FrameHeader::new(192, ChannelAssignment::Independent(2), 16, 44100, FrameOffset::StartSample(987_654_321)) {
+            let _ = h.write(&mut FailingSink::new(0, Flavour::Full));
+        }
+        if which % 2 == 1 {
+            if let (Ok(info), Ok(mut fb)) = (flacenc::component::StreamInfo::new(44100, 1, 16), FrameBuf::with_size(1, 32)) {
+                let _ = fb.fill_interleaved(&[5; 32]);
+                if let Ok(cfg) = config::Encoder::default().into_verified() {
+                    if let Ok(fr) = flacenc::encode_fixed_size_frame(&cfg, &fb, 0, &info) {
+                        let _ = fr.write(&mut FailingSink::new(which as usize / 2 % 2, Flavour::Full));
+                    }
+                }
+            }
+        }
+    });
+}
